@@ -13,9 +13,26 @@ pub struct M {
     pub mat: Vec<Vec<f64>>,
     pub bias: Vec<f64>,
     pub cols: usize,
+    /// build the real object with a column-major matrix
+    pub fortran: bool,
 }
 
 impl M {
+    /// column-major storage when `fortran` is set
+    fn real_l(&self) -> AffFunc {
+        if !self.fortran {
+            return self.real();
+        }
+        use ndarray::ShapeBuilder;
+        let r = self.mat.len();
+        let mut a = Array2::<f64>::zeros((r, self.cols).f());
+        for i in 0..r {
+            for j in 0..self.cols {
+                a[[i, j]] = self.mat[i][j];
+            }
+        }
+        AffFunc::from_mats(a, Array1::from(self.bias.clone()))
+    }
     fn real(&self) -> AffFunc {
         let r = self.mat.len();
         let mut a = Array2::<f64>::zeros((r, self.cols));
@@ -30,7 +47,7 @@ impl M {
         (self.mat.iter().map(|r| r.iter().map(|x| Q::from_f64(*x)).collect()).collect(), self.bias.iter().map(|x| Q::from_f64(*x)).collect())
     }
     fn json(&self) -> serde_json::Value {
-        json!({"mat": self.mat, "bias": self.bias})
+        json!({"mat": self.mat, "bias": self.bias, "column_major": self.fortran})
     }
 }
 
@@ -60,7 +77,7 @@ pub fn mats(rows: usize, cols: usize, vals: &[f64], nz: usize) -> Vec<M> {
     for f in flat {
         let mat: Vec<Vec<f64>> = (0..rows).map(|i| f[i * cols..(i + 1) * cols].to_vec()).collect();
         let bias = f[rows * cols..].to_vec();
-        out.push(M { mat, bias, cols });
+        out.push(M { mat, bias, cols, fortran: false });
     }
     out
 }
@@ -114,8 +131,8 @@ fn check_pair(f: &M, g: &M) -> CaseOut {
     let rec = |op: &str| json!({"f": f.json(), "g": g.json(), "operation": op});
     let (fm, fb) = f.q();
     let (gm, gb) = g.q();
-    let fr = f.real();
-    let gr = g.real();
+    let fr = f.real_l();
+    let gr = g.real_l();
     out.add("cases", 1);
     // compose when f.indim == g.outdim
     if f.cols == g.mat.len() {
@@ -183,7 +200,7 @@ fn check_single(f: &M) -> CaseOut {
     let mut out = CaseOut::default();
     let rec = |op: &str| json!({"f": f.json(), "operation": op});
     let (fm, fb) = f.q();
-    let fr = f.real();
+    let fr = f.real_l();
     let rows = f.mat.len();
     let n = f.cols;
     out.add("cases", 1);
@@ -394,9 +411,11 @@ fn check_constructors(dim: usize) -> CaseOut {
     // slice: every NaN pattern (dim <= 4), fixed values
     if dim <= 4 {
         for mask in 0..(1u32 << dim) {
-            let refp: Vec<f64> = (0..dim).map(|j| if mask & (1 << j) != 0 { f64::NAN } else { j as f64 - 0.5 }).collect();
-            let r2 = refp.clone();
-            test(&mut out, "slice", json!(refp.iter().map(|t| t.to_string()).collect::<Vec<_>>()), catch(|| AffFunc::slice(&Array1::from(refp.clone()))), &|x| x.iter().zip(r2.iter()).map(|(a, b)| if b.is_nan() { *a } else { *b }).collect());
+            for vals in [[-0.5, 0.5, 1.5, 2.5], [0.0, -0.0, 1.0, 0.0], [2.0, 0.0, 0.0, -1.0]] {
+                let refp: Vec<f64> = (0..dim).map(|j| if mask & (1 << j) != 0 { f64::NAN } else { vals[j] }).collect();
+                let r2 = refp.clone();
+                test(&mut out, "slice", json!(refp.iter().map(|t| t.to_string()).collect::<Vec<_>>()), catch(|| AffFunc::slice(&Array1::from(refp.clone()))), &|x| x.iter().zip(r2.iter()).map(|(a, b)| if b.is_nan() { *a } else { *b + 0.0 }).collect());
+            }
         }
     }
     // translation: x + offset
@@ -415,7 +434,12 @@ pub fn cases(tier: Tier) -> Vec<Case> {
     let shapes: Vec<(usize, usize)> = vec![(1, 1), (1, 2), (2, 1), (2, 2), (1, 3), (3, 1), (2, 3), (3, 2), (3, 3)];
     for (r, c) in &shapes {
         let nz = if r * c >= 6 { nz_single.min(3) } else if r * c >= 4 { nz_single.min(4) } else { nz_single };
-        for m in mats(*r, *c, &vals, nz) {
+        for (i, m) in mats(*r, *c, &vals, nz).into_iter().enumerate() {
+            if *r >= 2 && *c >= 2 && i % 3 == 0 {
+                let mut f = m.clone();
+                f.fortran = true;
+                v.push(Case::Single(f));
+            }
             v.push(Case::Single(m));
         }
     }
@@ -438,10 +462,52 @@ pub fn cases(tier: Tier) -> Vec<Case> {
         }
         // dense divisors for div / rem
         if a == b {
-            let dense = M { mat: (0..b.0).map(|i| (0..b.1).map(|j| [2.0, -1.0, 0.5, -2.0][(i + j) % 4]).collect()).collect(), bias: (0..b.0).map(|i| [1.0, -0.5, 2.0][i % 3]).collect(), cols: b.1 };
+            let dense = M { mat: (0..b.0).map(|i| (0..b.1).map(|j| [2.0, -1.0, 0.5, -2.0][(i + j) % 4]).collect()).collect(), bias: (0..b.0).map(|i| [1.0, -0.5, 2.0][i % 3]).collect(), cols: b.1, fortran: false };
             for f in &fa {
                 v.push(Case::Pair(f.clone(), dense.clone()));
             }
+        }
+        // structured operands: identity, shears (unit diagonal, zero bias, off-diagonal entry), permutations,
+        // dense matrices - in row-major and column-major storage, on either side
+        let structured = |r: usize, c: usize| -> Vec<M> {
+            let mut out = vec![];
+            let dense = |s: usize| M { mat: (0..r).map(|i| (0..c).map(|j| [2.0, -1.0, 0.5, 1.0, -2.0][(i * 2 + j + s) % 5]).collect()).collect(), bias: (0..r).map(|i| [1.0, -0.5, 0.0][(i + s) % 3]).collect(), cols: c, fortran: false };
+            out.push(dense(0));
+            out.push(dense(1));
+            if r == c {
+                let eye = |off: Option<(usize, usize, f64)>, bias: f64| {
+                    let mut m = vec![vec![0.0; c]; r];
+                    for i in 0..r { m[i][i] = 1.0; }
+                    if let Some((i, j, v)) = off { m[i][j] = v; }
+                    M { mat: m, bias: vec![bias; r], cols: c, fortran: false }
+                };
+                out.push(eye(None, 0.0));
+                out.push(eye(None, 1.0));
+                if r >= 2 {
+                    out.push(eye(Some((0, 1, 2.0)), 0.0));
+                    out.push(eye(Some((1, 0, -1.0)), 0.0));
+                    out.push(eye(Some((r - 1, 0, 0.5)), 0.0));
+                    let mut p = vec![vec![0.0; c]; r];
+                    for i in 0..r { p[i][(i + 1) % c] = 1.0; }
+                    out.push(M { mat: p, bias: vec![0.0; r], cols: c, fortran: false });
+                }
+            }
+            let mut all = out.clone();
+            for m in out { let mut f = m; f.fortran = true; all.push(f); }
+            all
+        };
+        let sa = structured(a.0, a.1);
+        let sb = structured(b.0, b.1);
+        for f in &sa {
+            for g in &sb {
+                v.push(Case::Pair(f.clone(), g.clone()));
+            }
+        }
+        for f in fa.iter().take(40) {
+            for g in &sb { v.push(Case::Pair(f.clone(), g.clone())); }
+        }
+        for g in gb.iter().take(40) {
+            for f in &sa { v.push(Case::Pair(f.clone(), g.clone())); }
         }
     }
     for d in 1..=5 {
